@@ -4,6 +4,7 @@ From RecordUpdate Require Import RecordUpdate.
 From GB Require Import Model.Allowance Model.Batcher Proofs.Tactics Proofs.C01Inv Proofs.BatcherLocal
   Proofs.BatcherLocal2 Proofs.BatcherInv2 Proofs.BatcherInv3.
 From GB Require Import Gen.Facts.
+From GB Require Import Model.BufferPtr Proofs.BufferRefine.
 Import ListNotations.
 Open Scope Z_scope.
 (* OperationsInBuffer() never exceeds the configured size *)
@@ -40,6 +41,39 @@ Proof. exact insert_after_shutdown_v2. Qed.
 Print Assumptions C15_late_caller_gets_error_v2.
 
 (* V1: known finding D2 — the closed channel makes blocked and later senders panic *)
+(* ---- the linked list of v2/buffer.go ----
+   Model/BufferPtr.v is the buffer at pointer level: cells with prv/nxt pointers in a heap, head, tail and cursor
+   pointers, the length counter, the four cases of remove().  R p a addrs relates it to the list-with-cursor view
+   (the one the Batcher model uses).  Every operation on related states returns the same result and leads to
+   related states, hence every sequence of operations from the empty buffer gives the same results and sizes at
+   both levels; the pointer level never exceeds its capacity and never reaches one of its two "coding error"
+   panics.  The real buffer is compared with the extracted pointer-level model on every run (harness/buffer.go:
+   all sequences of up to 5 (thorough: 6) operations for capacities 1..3, and long random ones). *)
+Theorem C15_linked_list_refines_list : forall p a addrs c,
+  R p a addrs ->
+  exists addrs', snd (prun1 p c) = snd (arun1 a c) /\ R (fst (prun1 p c)) (fst (arun1 a c)) addrs'.
+Proof. exact refine_step. Qed.
+Print Assumptions C15_linked_list_refines_list.
+
+Theorem C15_linked_list_same_behaviour : forall cap cs, prun (pinit cap) cs = arun (ainit cap) cs.
+Proof. exact refine_from_empty. Qed.
+Print Assumptions C15_linked_list_same_behaviour.
+
+Theorem C15_linked_list_bounded : forall p a addrs c,
+  R p a addrs -> (p_len p <= p_cap p)%nat -> (p_len (fst (prun1 p c)) <= p_cap (fst (prun1 p c)))%nat.
+Proof. exact pointer_bounded. Qed.
+Print Assumptions C15_linked_list_bounded.
+
+Theorem C15_linked_list_never_panics : forall p a addrs c, R p a addrs -> snd (prun1 p c) <> RBufPanic.
+Proof. exact pointer_never_panics. Qed.
+Print Assumptions C15_linked_list_never_panics.
+
+Example C15_linked_list_nonvacuous :
+  prun (pinit 3) [BEnqueue 1 true; BEnqueue 2 true; BEnqueue 3 true; BEnqueue 4 true; BTop; BSkip; BRemove; BEnqueue 5 false; BTop; BRemove; BSkip; BRemove; BRemove]
+  = [(RBufOk, 1); (RBufOk, 2); (RBufOk, 3); (RBufFull, 3); (RBufOp (Some 1), 3); (RBufOp (Some 2), 3); (RBufOp (Some 3), 2);
+     (RBufOk, 3); (RBufOp (Some 1), 3); (RBufOp (Some 3), 2); (RBufOp (Some 5), 2); (RBufOp None, 1); (RBufOp None, 1)]%nat.
+Proof. vm_compute. reflexivity. Qed.
+
 Definition d2_cfg : cfg := mkCfg V1 1 false false 0 0 0 0 0 0 [mkW 0 0 0] 0 0 0.
 Definition d2_enq (obj : nat) : label := AEnqueue (mkE false (Some 0%nat) obj 1 1 true 0 false).
 Theorem C15_shutdown_releases_v1_refuted :
